@@ -72,8 +72,11 @@ def recvStep (c : Chan) (pendingSignature feeTooBig : Bool) : Chan × List Out :
 
 def step (c : Chan) : Op → Chan × List Out
   | .localShutdown upd ip =>
-    let c1 := { c with f := { c.f with localShutdownSent := true } }
-    (if upd then setMon c1 (c1.f.monitorUpdateInProgress || ip) else c1, [])
+    -- get_shutdown's refusals (translated): nothing changes, nothing is sent (no HTLC still LocalAnnounced / no script override in the scenarios)
+    if getShutdownRefused c.v c.f false false false then (c, [.refused])
+    else
+      let c1 := { c with f := { c.f with localShutdownSent := true } }
+      (if upd then setMon c1 (c1.f.monitorUpdateInProgress || ip) else c1, [])
   | .remoteShutdown upd ip =>
     let c1 := { c with f := { c.f with remoteShutdownSent := true, localShutdownSent := true } }
     (if upd then setMon c1 (c1.f.monitorUpdateInProgress || ip) else c1, [])
